@@ -86,7 +86,8 @@ class C04(Check):
         t0 = max(c['sigs'][i][0][0] for i in used)
         tend = max(c['sigs'][i][-1][0] for i in used)
         w = ' '.join(dense.sig_sx(s) for s in c['sigs'])
-        return ['(dn std %s (%s))' % (fml.to_sx(c['f']), w), '(rhoz std %s (%s) %d %d)' % (fml.to_sx(c['f']), w, t0, max(tend, t0))]
+        return ['(dn std %s (%s))' % (fml.to_sx(c['f']), w), '(rhoz std %s (%s) %d %d)' % (fml.to_sx(c['f']), w, t0, max(tend, t0)),
+                '(deval %s (%s))' % (fml.to_sx(c['f']), w)]
 
     def impl_cases(self, c):
         if 'merge' in c:
@@ -144,6 +145,14 @@ class C04(Check):
             return 'violation', dict(det, observed=diff)
         if dense.compare_ticks(spec, ref, t0, end) is not None:
             return 'model-vs-spec', dict(det, note='the naive evaluator Dn disagrees with the tick semantics rhoZ', dn=ref)
+        # untimed fragment: the implementation-layer model deval (DenseEval.v, proved against rhoZ) must return the same list
+        if len(mlines) > 2 and mlines[2].startswith('DEVAL') and mlines[2] != 'DEVAL NONE':
+            dv = [[int(x.split(':')[0]), fml.parse_val(x.split(':')[1])] for x in mlines[2].split()[1:]]
+            got = [[t, v] for t, v in out if t != math.inf]
+            if [[float(t), float(v)] for t, v in dv] != [[float(t), float(v)] for t, v in got]:
+                return 'violation', dict(det, kind='list', expected={'source': 'DenseEval.deval: the sample list the visitors build (untimed fragment)', 'samples_ticks': [[t, fml.val_sx(v)] for t, v in dv]},
+                                         observed={'samples_ticks': got})
+            self.deval_compared = getattr(self, 'deval_compared', 0) + 1
         return 'ok', None
 
     def signature(self, c, detail):
@@ -167,7 +176,12 @@ class C04(Check):
         return json.dumps([fml.to_sx(c['f']), c['sigs']])
 
     def features(self, c):
-        return ['merge:' + c['merge']] if 'merge' in c else Check.features(self, c)
+        if 'merge' in c:
+            return ['merge:' + c['merge']]
+        return Check.features(self, c)
+
+    def extra_evidence(self):
+        return {'lists_compared_with_the_untimed_visitor_model': getattr(self, 'deval_compared', 0)}
 
     def describe(self, c):
         if 'merge' in c:
